@@ -45,6 +45,13 @@ func vfMakePacket(ssrc uint32, w uint16, id, n, shape int) (*rtp.Header, []byte)
 		h.Extension = true
 		h.ExtensionProfile = 0x1000
 		_ = h.SetExtension(3, []byte{byte(id % 256)})
+	case 8: // ten contributing sources (52-byte header)
+		h.CSRC = []uint32{1, 2, 3, 4, 5, 6, 7, 8, 9, 10}
+	case 9: // fifteen contributing sources and a one-byte extension (84-byte header)
+		h.CSRC = []uint32{1, 2, 3, 4, 5, 6, 7, 8, 9, 10, 11, 12, 13, 14, 15}
+		h.Extension = true
+		h.ExtensionProfile = 0xBEDE
+		_ = h.SetExtension(5, []byte{byte(id % 256), 7})
 	case 4:
 		if n > 0 && n < 190 {
 			h.Padding = true
